@@ -41,7 +41,7 @@ fn with_indent_eoi(
 	padding: &'static str,
 	o: PrintItems,
 	e: EndingComments,
-) -> (PrintItems, ConditionReevaluation) {
+) -> (PrintItems, Option<ConditionReevaluation>) {
 	let end_comments_items = {
 		let mut items = PrintItems::new();
 		if e.should_start_with_newline {
@@ -50,14 +50,21 @@ fn with_indent_eoi(
 		format_comments(&e.trivia, CommentLocation::EndOfItems, &mut items);
 		items.into_rc_path()
 	};
-	let items = new_line_group(pi!(@i; items(o) items(end_comments_items.into()))).into_rc_path();
+	let items = pi!(@i; items(o) items(end_comments_items.into()));
+	if items.is_empty() {
+		// Nothing to break the line for
+		return (pi!(@i; if (!padding.is_empty())(str(padding))), None);
+	}
+	let items = items.into_rc_path();
 
-	let indented = with_indent(pi!(@i; nl items(items.into())));
-	let inline = pi!(@i; if (!padding.is_empty())(str(padding)) items(items.into()));
+	let indented = with_indent(pi!(@i; nl items(new_line_group(items.into()))));
+	// A line that gets too long while this body is tried on one line is broken here, not in a group
+	// printed earlier on the line: only a break inside this body tells that it needs lines of its own
+	let inline = new_line_group(pi!(@i; pnl if (!padding.is_empty())(str(padding)) items(items.into())));
 
 	let mut body = if_true_or("indented body", cond, indented, inline);
 	let reevaluation = body.create_reevaluation();
-	(body.into(), reevaluation)
+	(body.into(), Some(reevaluation))
 }
 
 pub trait Printable {
@@ -140,6 +147,10 @@ macro_rules! pi {
 		$o.push_signal(dprint_core::formatting::Signal::SpaceOrNewLine);
 		pi!(@s; $o: $($t)*);
 	}};
+	(@s; $o:ident: pnl $($t:tt)*) => {{
+		$o.push_signal(dprint_core::formatting::Signal::PossibleNewLine);
+		pi!(@s; $o: $($t)*);
+	}};
 	(@s; $o:ident: sp $($t:tt)*) => {{
 		$o.push_signal(dprint_core::formatting::Signal::SpaceIfNotTrailing);
 		pi!(@s; $o: $($t)*);
@@ -202,7 +213,9 @@ macro_rules! pi {
 		pi!(@s; $o: $($t)*);
 	}};
 	(@s; $o:ident: reevaluate($v:expr) $($t:tt)*) => {{
-		$o.push_reevaluation($v);
+		if let Some(reevaluation) = $v {
+			$o.push_reevaluation(reevaluation);
+		}
 		pi!(@s; $o: $($t)*);
 	}};
 	(@s; $o:ident: if($s:literal, $cond:expr, $($i:tt)*) $($t:tt)*) => {{
